@@ -223,7 +223,7 @@ def run_history(w, h):
     try:
         for i, o in enumerate(h["ops"]):
             o = list(o)
-            if o[0] == "set" and o[2] == "network_config_file":
+            if o[0] == "set" and o[2] == "network_config_file" and isinstance(o[3], str) and not os.path.isabs(o[3]):
                 o[3] = os.path.join(w.home, o[3])           # keep the files `import simulaqron` creates inside the scratch HOME
             kind, p = o[0], o[1]
             d = None
@@ -319,7 +319,11 @@ def run_history(w, h):
 # ------------------------------------------------------------------------------------------------------
 def values_for(key, rng, which=None):
     if key == "network_config_file":
-        return rng.choice(["net_a.json", "net b.json", "sub_net.json"])          # made absolute (scratch HOME) at run time
+        # a path (made absolute inside the scratch HOME at run time) or null, the two value types the code anticipates
+        # (NetQASMFactory: `if simulaqron_settings.network_config_file is not None`)
+        if which == "null" or (which is None and rng.random() < 0.2):
+            return None
+        return rng.choice(["net_a.json", "net b.json", "sub_net.json"])
     pool = {
         "bool": [True, False],
         "int": [0, 1, -3, 7, 20, 2 ** 40, 1000],
@@ -399,17 +403,14 @@ def systematic_histories():
     import random
     r = random.Random(12345)
     for user in (None, [("max_qubits", 5), ("sim_backend", "projectq"), ("t1", 0.25)]):
-        pend = [(k, t) for k in DOC_KEYS for t in (types if k != "network_config_file" else ["str"])]
-        # `_read_user` is written last in its chunk so that the falsy values do not hide the user file from the other checks
+        pend = [(k, t) for k in DOC_KEYS for t in (types if k != "network_config_file" else ["str", "null"])]
         while pend:
             chunk, pend = pend[:10], pend[10:]
             ops = [("spawn", 1)]
             for k, t in chunk:
                 ops.append(("set", 1, k, values_for(k, r, t)))
             ops.append(("reset", 1))
-            out.append({"user": user, "store0": None, "ops": ops[:12], "single_writer": True, "kind": "systematic"})
-            if len(ops) > 12:
-                out.append({"user": user, "store0": None, "ops": [("spawn", 1)] + ops[12:], "single_writer": True, "kind": "systematic"})
+            out.append({"user": user, "store0": None, "ops": ops, "single_writer": True, "kind": "systematic"})      # <= 12 ops
     return out
 
 
@@ -453,14 +454,10 @@ def run(ctx):
                    "single_writer": single, "kind": "random"})
     hs.append(dict(LOST_UPDATE))
 
-    def job(args):
-        idx, h = args
-        return run_history(workers_free[idx % nw], h)
-    workers_free = workers
     # each worker runs its share sequentially (a worker's files are its own)
-    shares = [[(i, h) for i, h in enumerate(hs) if i % nw == w] for w in range(nw)]
+    shares = [(workers[w], [h for i, h in enumerate(hs) if i % nw == w]) for w in range(nw)]
     with ThreadPoolExecutor(max_workers=nw) as ex:
-        list(ex.map(lambda share: [job(a) for a in share], shares))
+        list(ex.map(lambda ws: [run_history(ws[0], h) for h in ws[1]], shares))
     ctx.count("interpreter_spawns", sum(w.spawns for w in workers))
 
     # ---- bookkeeping, python-side checks ---------------------------------------------------------------------------------
@@ -480,6 +477,10 @@ def run(ctx):
                     ctx.count("set_type_" + type(s["op"][3]).__name__)
                     ctx.count("set_key_" + s["op"][2])
         ctx.case((str(h["store0"]), str(h["user"]), str(h["ops"])), nontrivial=nontriv)
+    def nodup(pairs):
+        return pairs is None or len(set(k for k, _ in pairs)) == len(pairs)
+    ctx.obligation("inputs satisfy the theorems' hypotheses: default dictionary, initial store file and user file have no duplicate keys (wf / optwf)",
+                   all(nodup(h["store0"]) and nodup(h["user"]) and nodup(h.get("default")) for h in hs), "")
     keys_seen = set(k for h in hs if h.get("default") for k, _ in h["default"])
     ctx.obligation("the implementation's default dictionary has exactly the 11 documented keys",
                    keys_seen == set(DOC_KEYS), repr(sorted(keys_seen ^ set(DOC_KEYS))))
@@ -535,8 +536,11 @@ def run(ctx):
                    {"user_file": small["user"], "initial_store_file": small["store0"], "ops": small["ops"],
                     "oracle": small["oracle_bad"][:2]}, True)
     elif crashed:
-        h = crashed[0]
-        ctx.report("crash", "a process using simulaqron.settings crashed", {"user_file": h["user"], "initial_store_file": h["store0"], "ops": h["ops"], "crash": h["crashed"]}, True)
+        h = min(crashed, key=lambda x: len(x["ops"]))
+        small = shrink(workers[0], h, None)
+        last = small["crashed"]["stderr"].strip().split("\n")[-1] if small.get("crashed") else ""
+        ctx.report("later-process-crashes", "settings: after these writes a process started later cannot read the settings back (it crashes on import): %s" % last[:160],
+                   {"user_file": small["user"], "initial_store_file": small["store0"], "ops": small["ops"], "crash": small["crashed"]}, True)
     elif ctx.broken():
         ctx.report("broken:" + ";".join(ctx.broken()), "proof obligation / correspondence no longer checks: " + "; ".join(ctx.broken()),
                    {"broken": ctx.broken(),
@@ -550,6 +554,8 @@ def shrink(w, h, clause):
     cur = run_history(w, dict(cur))
 
     def fails(c):
+        if clause is None:
+            return bool(c.get("crashed"))
         return any(b["clause"] == clause for b in c["oracle_bad"])
     if not fails(cur):
         return h
@@ -567,7 +573,7 @@ def shrink(w, h, clause):
                 changed = True
                 break
         for fld in ("user", "store0"):
-            if cur[fld]:
+            if cur[fld] is not None:
                 c = run_history(w, dict({k: cur[k] for k in ("user", "store0", "ops", "single_writer", "kind")}, **{fld: None}))
                 if fails(c):
                     cur = c
